@@ -124,6 +124,35 @@ def regonly_entries(mm, isa):
     return out
 
 
+def memory_lines(isa, rng, n):
+    """Real instructions with a memory operand (loads, stores, read-modify-write) that most models cost by composing the register
+    form with their load/store micro-ops."""
+    from . import gen_lookup as G
+    from .props import c08
+
+    out = []
+    for _ in range(n):
+        name, pat = rng.choice(c08.CURATED[isa])
+        ops = []
+        for p in pat:
+            if p == "mem":
+                ops.append(c08.rand_mem(isa, rng))
+            elif p == "imm":
+                ops.append({"k": "imm", "text": "$%d" % rng.randint(1, 9)})
+            elif p == "gpr32":
+                ops.append({"k": "reg", "name": rng.choice(["eax", "ebx", "ecx", "r8d"])})
+            elif isa == "x86":
+                ops.append({"k": "reg", "name": G.x86_reg_of_class(p, rng) if p != "gpr" else rng.choice(G.GPR64)})
+            else:
+                ops.append(G.a64_reg(p, None, rng))
+        if isa == "aarch64" and name in ("ldp", "stp") and ops[-1]["index"]:
+            continue
+        if any(o is None for o in ops):
+            continue
+        out.append(G.render(isa, name, ops))
+    return out
+
+
 def shipped_stream_text(rng, entries, isa, nmin=8, nmax=16):
     from . import synth
 
@@ -146,6 +175,14 @@ def shipped_stream_text(rng, entries, isa, nmin=8, nmax=16):
             except Exception:  # noqa  a rendering the parser rejects is not an input of these properties (C09/C10)
                 continue
             lines.append(ln)
+    if rng.random() < 0.5:
+        # composed memory forms: their micro-ops are the register form's plus the model's load/store micro-ops
+        for ln in memory_lines(isa, rng, rng.randint(1, 4)):
+            try:
+                parser.parse_line(ln, 1)
+            except Exception:  # noqa
+                continue
+            lines.insert(rng.randint(0, len(lines)), ln)
     if not lines:
         lines = ["nop"]
     return "\n".join(lines) + "\n"
